@@ -5,6 +5,7 @@ from spec import v2parse, inv
 import tys
 
 LEVEL = 'proof'
+FIXTURES = ['F3', 'F8']
 HDR = tables.V2_HEADER
 
 
